@@ -122,6 +122,10 @@ pub fn read_position(text: &str) -> Result<Game, String> {
 
 pub fn move_from_parts(src: Square, dst: Square, code: u8) -> Option<Move> {
     use PromotionPieceKind::*;
+    if code == 0 && src == dst && src == crate::chess::square::squares::all::A1 {
+        // the quiet a1a1 would be the all-zero word, which `Move` (a NonZero) cannot hold
+        return None;
+    }
     Some(match code {
         0 => Move::quiet(src, dst),
         4 => Move::castles(src, dst),
@@ -236,7 +240,9 @@ pub fn dump_game(g: &Game) -> String {
         inc.piece_square_tables.midgame().0,
         inc.piece_square_tables.endgame().0,
         u8::from(g.is_repeated_position()),
-        u8::from(g.is_stalemate_by_fifty_move_rule()),
+        // (needs the move generator, which needs the mover's king: a crash there is this verdict's, not the dump's)
+        std::panic::catch_unwind(std::panic::AssertUnwindSafe(|| u8::from(g.is_stalemate_by_fifty_move_rule())))
+            .map_or("panic".to_string(), |v| v.to_string()),
         u8::from(g.is_stalemate_by_insufficient_material()),
         g.history.len(),
     )
